@@ -8,9 +8,12 @@ PROP = dict(
                        "Comdex.C19.epoch_pays_le_allocation", "Comdex.C19.cumulative_le_deposit",
                        "Comdex.C19.farmer_share_le_prorata", "Comdex.C19.custody_ge_remaining",
                        "Comdex.C19.f64_satisfies_float_hypothesis", "Comdex.C19.farmer_share_le_prorata_1e12_partial",
-                       "Comdex.C19.farmer_share_1e12_counterexample", "Comdex.C19.zero_epochs_counterexample",
+                       "Comdex.C19.farmer_share_1e12_counterexample", "Comdex.C19.accepted_gauge_split_sums",
+                       "Comdex.C19.every_gauge_split_sums", "Comdex.C19.split_zero_epochs_panics",
                        "Comdex.C19.ext_overpay_counterexample", "Comdex.C19.custody_ge_active_remaining"],
     harness_tests=["TestC19"],
+    monitors=["split_sum", "zero_epochs", "epoch_cap", "cumulative_cap", "farmer_share", "farmer_share_1e12", "custody",
+              "custody_ext_overpaid", "float_hyp"],
     trusted_base=[KERNEL_TB, HARNESS_TB, DEC_TB,
                   "Model/Gauge.lean is hand-written from x/rewards/keeper/{utils,gauge,distribution,epochs,iter}.go and "
                   "x/liquidity/keeper/rewards.go:168-307; tied by running the real SplitTotalAmountPerEpoch, GetFarmingRewardsData, "
@@ -40,9 +43,10 @@ META = dict(
     design_ref="DESIGN.md §5 C19",
     text="Kernel-checked for all totals, epoch counts, histories and farmed values: the split sums to the deposit (1 <= epochs <= total), "
          "each trigger pays at most the epoch's allocation, the cumulative amount stays within the deposit under any timing, every "
-         "farmer's payout is at most (1+2^-53)(pro-rata + (value+1)/2 ulp), the module account covers all remainders. The literal 1e-12 "
-         "clause, zero-epoch gauges and the external programmes' missing `paid <= available` guard are refuted by concrete "
-         "counterexamples replayed on the real code.",
+         "farmer's payout is at most (1+2^-53)(pro-rata + (value+1)/2 ulp), the module account covers all remainders; every accepted "
+         "gauge has >= 1 epoch (zero-epoch gauges are refused since the repair) so the split clause applies to all of them. The "
+         "literal 1e-12 clause and the external programmes' missing `paid <= available` guard are refuted by concrete "
+         "counterexamples replayed on the real code (known findings D21, D20).",
     note="Trusted: Lean kernel, the hand-written model as far as the correspondence run exercises it, Base/Dec, Go's ParseFloat being "
-         "correctly rounded (tested bit-for-bit). Defects reported: zero_epochs, farmer_share_1e12, custody (external programme overpays).",
+         "correctly rounded (tested bit-for-bit). Open findings: D20 custody_ext_overpaid, D21 farmer_share_1e12; zero_epochs repaired in the repository (regression witness kept).",
 )
